@@ -691,8 +691,16 @@ pub fn run(case: &str, ctx: &mut Ctx) -> String {
             if n == 0 || n > 64 || msb >= 64 || reqs.is_empty() || (!route && reqs.iter().any(|q| *q < 0 || *q >= 1 << 32)) {
                 return "bad-case".into();
             }
-            let rt = tokio::runtime::Builder::new_current_thread().enable_all().build().unwrap();
-            rt.block_on(run_pool(route, n, msb, per_shard, k, port_ok, &reqs, ctx))
+            // a pool that changed while it was probed tells nothing: try again with a fresh node and pool
+            let mut out = String::new();
+            for _ in 0..4 {
+                let rt = tokio::runtime::Builder::new_current_thread().enable_all().build().unwrap();
+                out = rt.block_on(run_pool(route, n, msb, per_shard, k, port_ok, &reqs, ctx));
+                if out != "unstable-pool" {
+                    break;
+                }
+            }
+            out
         }
         _ => "bad-case".into(),
     }
@@ -1022,7 +1030,8 @@ pub fn generate(rng: &mut Rng, tier: Tier, emit0: &mut dyn FnMut(String)) {
             }
         }
         // PerShard through the ordinary port only (connections land where the server puts them; excess connections)
-        for n in [2u16, 3] {
+        // (3 and 5: the kernel hands out ephemeral ports in steps of two, so an even shard count never fills)
+        for n in [3u16, 5] {
             pool_case(rng, "pool", n, 12, "S1".into(), "n", emit);
             pool_case(rng, "route", n, 12, "S1".into(), "n", emit);
         }
